@@ -11,8 +11,10 @@ pub enum Op {
     Insert(u16),
     Delete(u16),
     /// union with a second filter built from these keys (same config/hasher, own RNG); for the cuckoo
-    /// filter the first `.1` of them are deleted again from the operand before the union (holes)
-    Union(Vec<u16>, u8),
+    /// filter the first `.1` of them are deleted again from the operand before the union (holes); if
+    /// `.2` is set the operand receives its content through a union from a third filter instead of
+    /// through inserts
+    Union(Vec<u16>, u8, bool),
     Clear,
 }
 
@@ -30,7 +32,7 @@ fn op_strategy(union_max: usize) -> impl Strategy<Value = Op> {
     prop_oneof![
         12 => any::<u16>().prop_map(Op::Insert),
         4 => any::<u16>().prop_map(Op::Delete),
-        2 => (prop::collection::vec(any::<u16>(), 0..union_max), prop_oneof![3 => Just(0u8), 2 => 0u8..8]).prop_map(|(k, d)| Op::Union(k, d)),
+        2 => (prop::collection::vec(any::<u16>(), 0..union_max), prop_oneof![3 => Just(0u8), 2 => 0u8..8], prop::bool::weighted(0.3)).prop_map(|(k, d, v)| Op::Union(k, d, v)),
         1 => Just(Op::Clear),
     ]
 }
@@ -64,6 +66,7 @@ impl Check for C01 {
         let (mut n_ok, mut n_fail_ins, mut n_fail_union, mut n_union_ok_nonempty, mut n_evict, mut n_del_shared) = (0u32, 0u32, 0u32, 0u32, 0u32, 0u32);
         let mut bloom_okfalse_new = false;
         let mut n_other_holes = 0u32;
+        let mut n_via_union = 0u32;
         for (step, op) in c.ops.iter().enumerate() {
             let what;
             match op {
@@ -105,7 +108,7 @@ impl Check for C01 {
                     }
                     what = format!("delete({})", k);
                 }
-                Op::Union(keys, del) => {
+                Op::Union(keys, del, via_union) => {
                     let mut other = AnyFilter::new(&c.cfg, c.hk, &c.rng2);
                     let mut om: BTreeMap<u64, u32> = BTreeMap::new();
                     let mut inserted = vec![];
@@ -114,6 +117,14 @@ impl Check for C01 {
                         if other.insert(k).is_ok() {
                             *om.entry(k).or_insert(0) += 1;
                             inserted.push(k);
+                        }
+                    }
+                    if *via_union {
+                        // the operand gets its content through a union into a fresh filter
+                        let mut acc = AnyFilter::new(&c.cfg, c.hk, &c.rng2);
+                        if acc.union(&other).is_ok() {
+                            other = acc;
+                            n_via_union += 1;
                         }
                     }
                     if kind == "cuckoo" {
@@ -174,6 +185,7 @@ impl Check for C01 {
             .class_if(n_evict > 0, "cuckoo_eviction")
             .class_if(n_del_shared > 0, "cuckoo_delete_with_others_remaining")
             .class_if(n_other_holes > 0, "union_operand_with_deletes")
+            .class_if(n_via_union > 0, "union_operand_built_by_union")
             .class_if(bloom_okfalse_new, "bloom_okfalse_for_new_key");
         info.inner_evals = c.ops.len() as u64;
         Verdict::Pass(info)
